@@ -49,7 +49,7 @@ def run2(ctx):
         ctx.log("%s: %d generated / %d distinct; %d class witnesses" % (cfg, mc.generated, mc.distinct, len(mc.emitted)))
         behs += mc.emitted
     d = 20 if q else 30
-    for w, off in ((0, 0), (5, 6)):
+    for w, off in ((0, 6), (5, 0)):   # negative times with OOO + compaction only in the exhaustive configs (see KF-C20-8)
         if not ctx.want("sim"):
             continue
         sim = ctx.tlc("db", "Db", "SIM_c20.cfg", simulate=(25 if q else 1500), depth=6 * d, workers=8,
@@ -61,7 +61,7 @@ def run2(ctx):
         # walks that may trigger the known findings of the deletion / restart family: their own mismatches are reported under
         # their ids, anything else (e.g. a *different* loss after the same trigger) is a violation
         sim = ctx.tlc("db", "Db", "SIM_c01_kf.cfg", simulate=(15 if q else 800), depth=6 * d, workers=8,
-                      constants={"MaxOps": d, "W": 5, "TOff": 6}, timeout=(300 if q else 2400))
+                      constants={"MaxOps": d, "W": 5, "TOff": 0}, timeout=(300 if q else 2400))
         ctx.account(sim)
         behs += sim.emitted
         ctx.log("SIM (known-finding triggers allowed): %d walks" % len(sim.emitted))
